@@ -302,7 +302,15 @@ class Fit(Base):
     @info.setter
     def info(self, info):
         if info is not None:
-            self._info = [Info(key=key, value=value) for key, value in info.items()]
+            # the info table holds scalars; a dict / list / tuple value is kept as its json text
+            # (the typed dictionary remains available as the json named "info")
+            self._info = [
+                Info(
+                    key=key,
+                    value=json.dumps(value) if isinstance(value, (dict, list, tuple)) else value,
+                )
+                for key, value in info.items()
+            ]
 
     @property
     @try_none
